@@ -3,7 +3,7 @@
    Z, positive, nat stay the extracted inductive types; no Extract Constant. *)
 From Coq Require Extraction ExtrOcamlBasic.
 From SV Require Import Lib.Base Model.WireBase Model.WireSixFrag Model.WireNhc Model.WireIphc.
-From SV Require Import Model.Assembler Model.LowpanFrag Model.Lowpan.
+From SV Require Import Model.Assembler Model.LowpanFrag Model.Lowpan Model.LowpanLive.
 Extraction Language OCaml.
 Cd "../ocaml/gen".
 Extraction "lowpan_model.ml"
@@ -12,5 +12,6 @@ Extraction "lowpan_model.ml"
   nhc_udp_header_len nhc_udp_src_port nhc_udp_dst_port
   iphc_emit iphc_buffer_len iphc_parse iphc_check_len iphc_header_len iphc_payload
   lp_dispatch lp_process_sixlowpan lp_dgram_of_bytes lp_ipv6_bytes lpf_slots_new lpf_remove_expired lpf_ieee_len
-  lpf_frame_len sixfrag_bytes_of.
+  lpf_frame_len sixfrag_bytes_of
+  lpl_ll_bytes lpl_txbuf_len lpl_frame_octets lpl_tx_octets lpl_poll lpl_run.
 Cd "../../coq".
